@@ -24,6 +24,19 @@ CLAIMED = {
    text='Loop-contract proofs (quantified invariants, decreases) that uptolow lower-cases every character, remove_line/remove_whitespace erase only their separator, keep order, leave no separator and introduce no character, and masa_map composes them (no dash, blank or upper-case letter remains) for every string up to 64 characters; plus a bounded stand-in (all strings up to length 7, full equality with the reference filter) that supplies concrete counterexample strings, replayed on the real masa_map.',
    note='std::string find/replace/length/index/copy semantics are contracts in lib/vstr.h (trusted); capacity 64; z3 decides the quantified obligations; the comparison of the normalised name against catalogue names in init_mms is covered by C12/C14 contracts',
    tech='CBMC code contracts + loop contracts (DFCC, --apply-loop-contracts) on C extracted from masa_map.cpp, std::string operations replaced by their contracts; z3; bounded unwinding stand-in labelled bounded'),
+
+ 'C03': dict(cat='proof', ref='4/C03',
+   text='navierstokes_2d/3d_compressible, axi_cns, axi_cns_transient: every eval_q_* equals the compressible Navier-Stokes residual (Newtonian stress, Fourier flux with T=p/(rho R), total energy; cylindrical for the axisymmetric pair) applied by jet differentiation to the field jets the eval_exact_* contracts pin. Six axisymmetric viscous sources fail this (KNOWN FINDINGS, replayed on the real classes); for them the code is additionally pinned to the recorded as-coded operator so any further change is still reported. The power-law solution (nsctpl) is not yet under contract.',
+   note='real arithmetic instead of IEEE; libm as uninterpreted functions + axioms of lib/real.h; denominators assumed non-zero; extractor rule table; CBMC DFCC + SMT solver' + '; navierstokes_4d_compressible_powerlaw not covered yet', tech='CBMC code contracts (goto-instrument --dfcc --enforce-contract) on C extracted mechanically from the C++ source each run; __CPROVER_rational + SMT portfolio (cvc5/z3); native twin + real-class replay for counterexamples'),
+ 'C07': dict(cat='proof', ref='4/C07',
+   text='eval_g_* of euler_1d/2d/3d and navierstokes_2d/3d_compressible == first-derivative components of the same jets as the exact fields for every int index (out of range -> -1, prints only); every masa_eval_grad_* API template forwards to eval_g_<same variable> with the same arguments on the selected object.',
+   note='real arithmetic instead of IEEE; libm as uninterpreted functions + axioms of lib/real.h; denominators assumed non-zero; extractor rule table; CBMC DFCC + SMT solver' + '; API layer: virtual dispatch is an uninterpreted call; power-law gradients not covered yet', tech='CBMC code contracts (goto-instrument --dfcc --enforce-contract) on C extracted mechanically from the C++ source each run; __CPROVER_rational + SMT portfolio (cvc5/z3); native twin + real-class replay for counterexamples'),
+ 'C15': dict(cat='proof', ref='4/C15',
+   text='Each of the ~120 inline base-class stubs returns exactly -1.33, sets the (S)MASA ERROR message flag and assigns nothing else (no exit, no parameter); each of the 133 API templates makes exactly one call, on the selected object, to the method the naming convention prescribes, same arity and argument order, and returns its value; selection pointer untouched.',
+   note='virtual dispatch to the most derived override and overload resolution are C++ semantics (assumed); stdout text reduced to its message class; CBMC DFCC + SAT', tech='CBMC code contracts (DFCC) on C extracted mechanically from masa_core.cpp / masa_internal.h / cmasa.cpp; outgoing calls as recorded uninterpreted functions; contracts generated from the API naming convention; SAT back end'),
+ 'C17': dict(cat='proof', ref='4/C17',
+   text='Each of the 94 extern "C" wrappers of cmasa.cpp calls exactly the <double> template the naming convention prescribes with its own arguments in order and returns that value (bit-identical doubles up to NaN payload); masa_init_param/masa_sanity_check/masa_get_array return the callee status; masa_get_array copies length and contents (loop contract); masa_set_array builds the vector from the first *n values; masa_get_name copies the string back into the caller buffer.',
+   note='templates are uninterpreted functions + ghost call record; std::string/std::vector are opaque handles; caller buffer capacity is an API assumption; masa_test_default (process-terminating test helper) not under contract', tech='CBMC code contracts (DFCC) on C extracted mechanically from masa_core.cpp / masa_internal.h / cmasa.cpp; outgoing calls as recorded uninterpreted functions; contracts generated from the API naming convention; SAT back end'),
 }
 
 NOT_YET = 'contract check not built yet in this session (see DESIGN.md section 4 for the plan)'
